@@ -1,274 +1,9 @@
 // FLAVOURS: rel asan
 // C17: grid node numbering is a bijection consistent with geometry and periodicity.
 //   radii[], angles[], split_mode (0 automatic, 1 explicit), split, probe_seed, expect_reject
-#include "engine.h"
-#include "gridgen.h"
-#include "PolarGrid/polargrid.h"
-#include <climits>
-
-static Outcome checkGrid(const PolarGrid& g, const std::vector<double>& radii, const std::vector<double>& angles,
-                         bool explicitSplit, double split, uint64_t probeSeed, Outcome o)
-{
-    const int nr = (int)radii.size(), nt = (int)angles.size() - 1, N = nr * nt;
-    auto F = [&](const std::string& orc, const std::string& m) {
-        o.fail(orc, m);
-        return o;
-    };
-    if (g.nr() != nr || g.ntheta() != nt || g.numberOfNodes() != N)
-        return F("dims", "nr/ntheta/numberOfNodes do not match the input arrays");
-    for (int i = 0; i < nr; i++)
-        if (g.radius(i) != radii[i])
-            return F("coords", "radius(i) differs from the input");
-    for (int j = 0; j <= nt; j++)
-        if (g.theta(j) != angles[j])
-            return F("coords", "theta(j) differs from the input");
-    const int nC = g.numberSmootherCircles(), len = g.lengthSmootherRadial();
-    if (nC < 0 || len < 0 || nC + len != nr || g.numberCircularSmootherNodes() != nC * nt ||
-        g.numberRadialSmootherNodes() != len * nt)
-        return F("split_counts", "circle/radial counts do not partition the grid");
-    if (explicitSplit) {
-        int expect = 0;
-        for (int i = 0; i < nr; i++)
-            if (radii[i] < split)
-                expect++;
-        if (nC != expect)
-            return F("split_position", "explicit split " + std::to_string(split) + ": " + std::to_string(nC) +
-                                           " circles, expected the " + std::to_string(expect) + " radii below it");
-    }
-    else {
-        if (nC < std::min(2, nr))
-            return F("split_auto", "automatic split produced fewer than two circles");
-        if (nr >= 6 && (nC < 3 || len < 3))
-            return F("split_auto", "automatic split violates circles>=3, radial length>=3 on a grid with nr>=6");
-    }
-    // bijection: mark all N
-    std::vector<char> seen(N, 0);
-    for (int i = 0; i < nr; i++)
-        for (int j = 0; j < nt; j++) {
-            int k = g.index(i, j);
-            if (k < 0 || k >= N)
-                return F("bijection", "index out of range");
-            if (seen[k])
-                return F("bijection", "two nodes share index " + std::to_string(k));
-            seen[k] = 1;
-            if (g.fastIndex(i, j) != k)
-                return F("fast_index", "fastIndex differs from index");
-            if (g.index(MultiIndex(i, j)) != k)
-                return F("ref_index", "index(MultiIndex) differs from index(int,int)");
-            int ri, ti;
-            g.multiIndex(k, ri, ti);
-            if (ri != i || ti != j)
-                return F("inverse", "multiIndex(index(i,j)) != (i,j)");
-            MultiIndex mi = g.multiIndex(k);
-            if (mi[0] != i || mi[1] != j)
-                return F("inverse", "reference multiIndex(index(i,j)) != (i,j)");
-            // circle section below nC, numbered theta-major; radial section r-major
-            bool inCircle = k < g.numberCircularSmootherNodes();
-            if (inCircle != (i < nC))
-                return F("split_partition", "node section does not match i_r < numberSmootherCircles");
-            if (i < nC && j + 1 < nt && g.index(i, j + 1) != k + 1)
-                return F("numbering", "circle section is not numbered theta-major");
-            if (i >= nC && i + 1 < nr && g.index(i + 1, j) != k + 1)
-                return F("numbering", "radial section is not numbered r-major");
-            Point p = g.polarCoordinates(MultiIndex(i, j));
-            if (p[0] != radii[i] || p[1] != angles[j])
-                return F("coords", "polarCoordinates differs from the arrays");
-        }
-    // periodic wrap for any integer offset
-    Rnd r(probeSeed);
-    std::vector<long long> probes = {0, -1, nt, -nt, nt - 1, 2LL * nt + 1, INT_MAX, INT_MIN, INT_MIN + 1, INT_MAX - 1};
-    for (int t = 0; t < 40; t++)
-        probes.push_back((long long)r.irange(-1000000, 1000000));
-    for (long long u : probes) {
-        int w        = g.wrapThetaIndex((int)u);
-        long long ex = ((u % nt) + nt) % nt;
-        if (w != (int)ex)
-            return F("wrap", "wrapThetaIndex(" + std::to_string(u) + ")=" + std::to_string(w) + ", expected " +
-                                 std::to_string(ex));
-        int ir = r.irange(0, nr - 1);
-        if (g.index(ir, (int)u) != g.index(ir, (int)ex))
-            return F("wrap", "index with unwrapped angle differs from the wrapped one");
-        if (g.angularSpacing((int)u) != angles[ex + 1] - angles[ex])
-            return F("spacing", "angularSpacing(unwrapped) != theta(w+1)-theta(w)");
-    }
-    for (int i = 0; i + 1 < nr; i++)
-        if (g.radialSpacing(i) != radii[i + 1] - radii[i])
-            return F("spacing", "radialSpacing != coordinate difference");
-    // neighbours
-    for (int t = 0; t < std::min(N, 64); t++) {
-        int i = r.irange(0, nr - 1), j = r.irange(0, nt - 1);
-        if (t == 0) {
-            i = 0;
-            j = 0;
-        }
-        if (t == 1) {
-            i = nr - 1;
-            j = nt - 1;
-        }
-        std::array<std::pair<int, int>, space_dimension> nb, dg;
-        std::array<std::pair<double, double>, space_dimension> ds;
-        g.adjacentNeighborsOf(MultiIndex(i, j), nb);
-        g.diagonalNeighborsOf(MultiIndex(i, j), dg);
-        g.adjacentNeighborDistances(MultiIndex(i, j), ds);
-        auto idx = [&](int a, int b) { return (a < 0 || a >= nr) ? -1 : g.index(a, b); };
-        if (nb[0].first != idx(i - 1, j) || nb[0].second != idx(i + 1, j) || nb[1].first != idx(i, j - 1) ||
-            nb[1].second != idx(i, j + 1))
-            return F("neighbours", "adjacentNeighborsOf disagrees with index arithmetic");
-        if (dg[0].first != idx(i - 1, j - 1) || dg[0].second != idx(i + 1, j - 1) || dg[1].first != idx(i - 1, j + 1) ||
-            dg[1].second != idx(i + 1, j + 1))
-            return F("neighbours", "diagonalNeighborsOf disagrees with index arithmetic");
-        double h1 = i > 0 ? radii[i] - radii[i - 1] : 0.0, h2 = i + 1 < nr ? radii[i + 1] - radii[i] : 0.0;
-        int jm = (j + nt - 1) % nt;
-        if (ds[0].first != h1 || ds[0].second != h2 || ds[1].first != angles[jm + 1] - angles[jm] ||
-            ds[1].second != angles[j + 1] - angles[j])
-            return F("spacing", "adjacentNeighborDistances disagrees with the coordinate arrays");
-    }
-    return o;
-}
-
-static Outcome runCase(const KV& c)
-{
-    Outcome o;
-    auto radii  = c.getVD("radii");
-    auto angles = c.getVD("angles");
-    const bool explicitSplit = c.getI("split_mode") == 1;
-    const double split       = c.getD("split", 0.0);
-    const bool expectReject  = c.getI("expect_reject", 0) != 0;
-    const uint64_t seed      = c.getU("probe_seed");
-    std::unique_ptr<PolarGrid> g;
-    try {
-        g = explicitSplit ? std::make_unique<PolarGrid>(radii, angles, split) : std::make_unique<PolarGrid>(radii, angles);
-    }
-    catch (const std::invalid_argument&) {
-        o.cls("rejected_invalid_argument");
-        if (!expectReject)
-            o.fail("spurious_rejection", "an admissible grid was rejected");
-        o.nontrivial = false;
-        return o;
-    }
-    if (expectReject) {
-        o.fail("accepted_invalid", std::string("constructor accepted an inadmissible grid: ") + c.getS("reject_why", ""));
-        return o;
-    }
-    const int nr = (int)radii.size(), nt = (int)angles.size() - 1;
-    const int nC = g->numberSmootherCircles();
-    const bool pow2 = (nt & (nt - 1)) == 0;
-    o.nontrivial    = !pow2 || nC == 0 || nC == nr || explicitSplit;
-    o.signature     = std::to_string(nr) + "x" + std::to_string(nt) + "c" + std::to_string(nC) + (explicitSplit ? "e" : "a");
-    o.cls(pow2 ? "ntheta_pow2" : "ntheta_not_pow2");
-    o.cls(explicitSplit ? "split_explicit" : "split_auto");
-    if (nC == 0)
-        o.cls("no_circles");
-    if (nC == nr)
-        o.cls("only_circles");
-    if (nr <= 3)
-        o.cls("nr_le_3");
-    o = checkGrid(*g, radii, angles, explicitSplit, split, seed, o);
-    if (!o.ok)
-        return o;
-    // coarsening chain down to the smallest grid
-    std::unique_ptr<PolarGrid> cur = std::move(g);
-    int depth                      = 0;
-    while (cur->nr() >= 3 && cur->nr() % 2 == 1 && cur->ntheta() % 4 == 0) {
-        PolarGrid coarse = coarseningGrid(*cur);
-        if (coarse.nr() != (cur->nr() + 1) / 2 || coarse.ntheta() != cur->ntheta() / 2) {
-            o.fail("coarsening", "coarse grid has the wrong dimensions");
-            return o;
-        }
-        std::vector<double> cr, ca;
-        for (int i = 0; i < cur->nr(); i += 2)
-            cr.push_back(cur->radius(i));
-        for (int j = 0; j <= cur->ntheta(); j += 2)
-            ca.push_back(cur->theta(j));
-        if (cr != coarse.radii() || ca != coarse.angles() || coarse.radii().front() != cur->radii().front() ||
-            coarse.radii().back() != cur->radii().back()) {
-            o.fail("coarsening", "coarse grid does not keep every second node including both boundaries");
-            return o;
-        }
-        o = checkGrid(coarse, cr, ca, false, 0.0, seed + depth + 1, o);
-        if (!o.ok)
-            return o;
-        cur = std::make_unique<PolarGrid>(coarse);
-        depth++;
-    }
-    if (depth >= 2)
-        o.cls("coarsened_twice_or_more");
-    return o;
-}
-
-static KV genCase()
-{
-    KV c;
-    int nr, nt;
-    if (rint(0, 9) == 0)
-        nr = rint(2, 3);
-    else
-        nr = rweighted({6, 3, 1}) == 0 ? rint(4, 12) : (rbool() ? rint(13, 40) : rpick({17, 33, 65}));
-    nt = 2 * (rweighted({1, 8, 4}) == 0 ? 1 : (rbool() ? rint(2, 12) : rpick({4, 8, 16, 32, 64})));
-    const double Rmax = runi(0.5, 2.0);
-    const double R0   = Rmax * genR0overRmax();
-    auto radii        = genRadii(nr, rint(0, 3) == 3 && nr % 2 == 0 ? 2 : rint(0, 3), R0, Rmax);
-    auto angles       = genAngles(nt, rint(0, 2));
-    int mode          = rint(0, 2) == 0 ? 0 : 1;
-    double split      = 0;
-    if (mode == 1) {
-        switch (rint(0, 5)) {
-        case 0:
-            split = R0 * 0.5;
-            break; // below R0
-        case 1:
-            split = Rmax * 1.5;
-            break; // above Rmax
-        case 2:
-            split = radii[rint(0, nr - 1)];
-            break; // exactly on a radius
-        case 3:
-            split = Rmax;
-            break;
-        default:
-            split = runi(R0, Rmax);
-            break;
-        }
-    }
-    // a share of inadmissible inputs: must be rejected with std::invalid_argument
-    int bad = rint(0, 19);
-    std::string why;
-    if (bad == 0 && nr >= 3) {
-        std::swap(radii[1], radii[2]);
-        why = "radii not increasing";
-    }
-    else if (bad == 1) {
-        radii[0] = -radii[0];
-        why      = "negative radius";
-    }
-    else if (bad == 2) {
-        angles.back() = 6.0;
-        why           = "last angle not 2 pi";
-    }
-    else if (bad == 3 && nt >= 4) {
-        const double cand = 0.5 * (angles[1] + angles[2]);
-        if (std::fabs(cand - (angles[nt / 2 + 1] - M_PI)) > 1e-6) {
-            angles[1] = cand;
-            why       = "angle without antipodal partner";
-        }
-    }
-    else if (bad == 4) {
-        radii.resize(1);
-        why = "one radius";
-    }
-    if (!why.empty()) {
-        c.putI("expect_reject", 1);
-        c.putS("reject_why", why);
-    }
-    c.putVD("radii", radii);
-    c.putVD("angles", angles);
-    c.putI("split_mode", mode);
-    c.putD("split", split);
-    c.putU("probe_seed", rseed());
-    return c;
-}
+#include "gridindex_case.h"
 
 int main(int argc, char** argv)
 {
-    return harnessMain(argc, argv, "C17 grid indexing", genCase, runCase);
+    return harnessMain(argc, argv, "C17 grid indexing", genGridIndexCase, runGridIndexCase);
 }
